@@ -20,6 +20,11 @@ package main
 //  peer_burst n               [0, full]                n irrelevant txs; is the tx channel full and a producer blocked
 //  peer_ping                  [0, pong]
 //  peer_addr n                [0, peers]
+//  peer_blockinv k            [0, ready]               a block announced by inventory: in sync is cleared
+//  api_tx t rel               [0, err, delivered]      the application calls Node.HandleTx (no sync check)
+//  api_fill n                 [0, returned, blocked]   one application goroutine calls Node.HandleTx n times
+//  api_result                 [0, finished, ok, errors, panics]
+//  restart                    [0]                      a new Node on the same storage (after Stop returned)
 //  peer_close / peer_reset / peer_silence  [0]
 //  peer_close_stop r          [0, hit, returned, runReturned, reconnected]   close (r=1: reset), Stop inside the restart shutdown
 //  sleep ms                   [0]
@@ -63,6 +68,7 @@ type sdEvent struct {
 
 type sdRecorder struct {
 	mu       sync.Mutex
+	umu      *sync.Mutex // guards the id universes (their maps are also written by the scenario thread)
 	bu       *Universe
 	tu       *TxUniverse
 	events   []sdEvent
@@ -96,16 +102,24 @@ func (r *sdRecorder) enter(kind int64, evs ...sdEvent) {
 }
 
 func (r *sdRecorder) HandleTx(ctx context.Context, tx *client.Tx) {
-	r.enter(1, sdEvent{1, -1, r.tu.ID(tx.Tx.TxHash())})
+	r.umu.Lock()
+	id := r.tu.ID(tx.Tx.TxHash())
+	r.umu.Unlock()
+	r.enter(1, sdEvent{1, -1, id})
 }
 func (r *sdRecorder) HandleTxUpdate(ctx context.Context, u *client.TxUpdate) {
-	r.enter(2, sdEvent{2, -1, r.tu.ID(&u.TxID)})
+	r.umu.Lock()
+	id := r.tu.ID(&u.TxID)
+	r.umu.Unlock()
+	r.enter(2, sdEvent{2, -1, id})
 }
 func (r *sdRecorder) HandleHeaders(ctx context.Context, h *client.Headers) {
 	var evs []sdEvent
+	r.umu.Lock()
 	for i, hdr := range h.Headers {
 		evs = append(evs, sdEvent{3, int64(h.StartHeight) + int64(i), r.bu.HeaderID(hdr)})
 	}
+	r.umu.Unlock()
 	r.enter(3, evs...)
 }
 func (r *sdRecorder) HandleInSync(ctx context.Context) { r.enter(4, sdEvent{4, -1, -1}) }
@@ -172,6 +186,7 @@ func (f *sdFetcher) GetTx(ctx context.Context, txid bitcoin.Hash32) (*wire.MsgTx
 
 type sdPeer struct {
 	mu        sync.Mutex
+	umu       *sync.Mutex
 	net       wire.BitcoinNet
 	bu        *Universe
 	addr      string
@@ -209,12 +224,16 @@ func (p *sdPeer) pump(conn net.Conn, gen int) {
 			case *wire.MsgGetHeaders:
 				p.getHdrs++
 				if len(m.BlockLocatorHashes) > 0 {
+					p.umu.Lock()
 					p.locTip = p.bu.ID(m.BlockLocatorHashes[0])
+					p.umu.Unlock()
 				}
 			case *wire.MsgGetData:
 				for _, iv := range m.InvList {
 					if iv.Type == wire.InvTypeBlock {
+						p.umu.Lock()
 						p.requested[p.bu.ID(&iv.Hash)] = true
+						p.umu.Unlock()
 					}
 				}
 			case *wire.MsgPong:
@@ -241,6 +260,15 @@ func (p *sdPeer) get(f func() int64) int64 {
 	p.mu.Lock()
 	defer p.mu.Unlock()
 	return f()
+}
+
+// one application goroutine calling the public API
+type sdAPI struct {
+	n      int64
+	ok     int64
+	errs   int64
+	panics int64
+	done   chan struct{}
 }
 
 func waitFor(cond func() bool, d time.Duration) bool {
@@ -285,7 +313,19 @@ func runShutdown(c *Case) ([]Obs, any) {
 	peer := &sdPeer{net: wire.BitcoinNet(cfg.Net), bu: bu, addr: l.Addr().String(), ln: l.(*net.TCPListener),
 		locTip: -100, requested: map[int64]bool{}, sent: -1}
 
-	rec := &sdRecorder{bu: bu, tu: tu}
+	umu := &sync.Mutex{}
+	peer.umu = umu
+	rec := &sdRecorder{bu: bu, tu: tu, umu: umu}
+	mkTx := func(t int64, body []int64, rel bool) *wire.MsgTx {
+		umu.Lock()
+		defer umu.Unlock()
+		return tu.TxRel(t, body, rel)
+	}
+	mkHeader := func(id int64) *wire.BlockHeader {
+		umu.Lock()
+		defer umu.Unlock()
+		return su.header(id, id-1)
+	}
 	fetch := &sdFetcher{tu: tu}
 	var node *spynode.Node
 	var runDone chan struct{}
@@ -293,6 +333,9 @@ func runShutdown(c *Case) ([]Obs, any) {
 	var callsAtStop int64 = -1
 	served := int64(0) // blocks served so far = the tip the node should have processed
 	pingNonce := uint64(1000)
+	markerSeq := int64(0)
+	var api *sdAPI
+	apiSeq := int64(0)
 	burstSeq := int64(0)
 	addrSeq := int64(0)
 
@@ -444,7 +487,7 @@ func runShutdown(c *Case) ([]Obs, any) {
 				}
 				msg := wire.NewMsgHeaders()
 				for id := base + 1; id <= base+n; id++ {
-					msg.AddBlockHeader(su.header(id, id-1))
+					msg.AddBlockHeader(mkHeader(id))
 				}
 				peer.send(msg)
 				peer.mu.Lock()
@@ -468,7 +511,7 @@ func runShutdown(c *Case) ([]Obs, any) {
 				before := announcedIDs()
 				first := served + 1
 				for id := first; id < first+k; id++ {
-					hdr := su.header(id, id-1)
+					hdr := mkHeader(id)
 					blk := &wire.MsgBlock{Header: *hdr}
 					blk.AddTransaction(blockTx(id, 0))
 					peer.send(blk)
@@ -501,26 +544,136 @@ func runShutdown(c *Case) ([]Obs, any) {
 				return Obs{OK, b2i(ready)}
 			case "peer_tx":
 				t, rel := op.Int(0), op.Int(1) != 0
-				tx := tu.TxRel(t, []int64{90000 + t*10}, rel)
+				tx := mkTx(t, []int64{90000 + t*10}, rel)
 				enteredBefore := atomic.LoadInt64(&fetch.entered)
+				countBefore := rec.count(func(e sdEvent) bool { return e.kind == 1 && e.id == t })
 				peer.send(tx)
 				delivered := false
 				if rel && node.IsReady(ctx) {
-					delivered = waitFor(func() bool {
-						if rec.count(func(e sdEvent) bool { return e.kind == 1 && e.id == t }) > 0 {
-							return true
+					rec.mu.Lock()
+					gated := rec.gate != nil
+					rec.mu.Unlock()
+					fetch.mu.Lock()
+					gated = gated || fetch.gate != nil
+					fetch.mu.Unlock()
+					isDelivered := func() bool {
+						return rec.count(func(e sdEvent) bool { return e.kind == 1 && e.id == t }) > countBefore
+					}
+					if gated {
+						// the consumer will be parked in the held call: wait until it is there
+						waitFor(func() bool { return isDelivered() || atomic.LoadInt64(&fetch.entered) > enteredBefore }, react)
+					} else {
+						// the tx is in the channel once the ping behind it is answered; a marker tx pushed through
+						// the API behind it has been taken by the (sequential) consumer only after this tx was
+						// processed completely: delivered or deliberately not delivered
+						barrier()
+						markerSeq++
+						marker := mkTx(8000+markerSeq, []int64{980000 + markerSeq*10}, false)
+						mh := *marker.TxHash()
+						if err := node.HandleTx(ctx, marker); err == nil {
+							waitFor(func() bool { return isDelivered() || node.VerifMemPool().TransactionExists(&mh) }, react)
 						}
-						return atomic.LoadInt64(&fetch.entered) > enteredBefore
-					}, react)
-					delivered = rec.count(func(e sdEvent) bool { return e.kind == 1 && e.id == t }) > 0
+					}
+					delivered = isDelivered()
 				} else {
 					barrier()
 				}
 				return Obs{OK, b2i(delivered)}
+			case "api_tx":
+				// the application feeds a tx through the public API (Node.HandleTx): no sync check
+				t, rel := op.Int(0), op.Int(1) != 0
+				tx := mkTx(t, []int64{90000 + t*10}, rel)
+				enteredBefore := atomic.LoadInt64(&fetch.entered)
+				countBefore := rec.count(func(e sdEvent) bool { return e.kind == 1 && e.id == t })
+				err := node.HandleTx(ctx, tx)
+				delivered := false
+				if rel && err == nil {
+					waitFor(func() bool {
+						if rec.count(func(e sdEvent) bool { return e.kind == 1 && e.id == t }) > countBefore {
+							return true
+						}
+						return atomic.LoadInt64(&fetch.entered) > enteredBefore
+					}, time.Duration(cfgInt(c, "tx_wait_ms", 3000))*time.Millisecond)
+					delivered = rec.count(func(e sdEvent) bool { return e.kind == 1 && e.id == t }) > countBefore
+				} else if err == nil {
+					ch := node.VerifTxChannel()
+					waitFor(func() bool { return len(ch.Channel) == 0 }, react)
+					time.Sleep(20 * time.Millisecond)
+				}
+				return Obs{OK, b2i(err != nil), b2i(delivered)}
+			case "api_fill":
+				// one application goroutine calls Node.HandleTx n times in a row (txs that are not relevant)
+				n := op.Int(0)
+				api = &sdAPI{n: n, done: make(chan struct{})}
+				a, nd, base := api, node, apiSeq
+				go func() {
+					defer close(a.done)
+					defer func() {
+						if r := recover(); r != nil {
+							atomic.AddInt64(&a.panics, 1)
+						}
+					}()
+					for i := int64(0); i < a.n; i++ {
+						tx := mkTx(7000+base+i, []int64{970000 + (base+i)*10}, false)
+						if err := nd.HandleTx(ctx, tx); err != nil {
+							atomic.AddInt64(&a.errs, 1)
+						} else {
+							atomic.AddInt64(&a.ok, 1)
+						}
+					}
+				}()
+				apiSeq += n
+				// until all calls have returned, or the calls have stopped returning (the channel is full)
+				last, since := int64(-1), time.Now()
+				waitFor(func() bool {
+					select {
+					case <-a.done:
+						return true
+					default:
+					}
+					cur := atomic.LoadInt64(&a.ok) + atomic.LoadInt64(&a.errs)
+					if cur != last {
+						last, since = cur, time.Now()
+						return false
+					}
+					return time.Since(since) > 250*time.Millisecond
+				}, react+2*time.Second)
+				blocked := !chanDone(a.done)
+				return Obs{OK, atomic.LoadInt64(&a.ok) + atomic.LoadInt64(&a.errs), b2i(blocked)}
+			case "api_result":
+				if api == nil {
+					panic(harnessErr("api_result without api_fill"))
+				}
+				fin := waitChan(api.done, 2*time.Second)
+				return Obs{OK, b2i(fin), atomic.LoadInt64(&api.ok), atomic.LoadInt64(&api.errs), atomic.LoadInt64(&api.panics)}
+			case "peer_blockinv":
+				// a block announced by inventory (not by headers): the node is no longer in sync
+				h := pseudo("blk-inv", op.Int(0))
+				inv := wire.NewMsgInv()
+				inv.AddInvVect(wire.NewInvVect(wire.InvTypeBlock, &h))
+				peer.send(inv)
+				barrier()
+				return Obs{OK, b2i(node.IsReady(ctx))}
+			case "restart":
+				// a new process on the same storage: new Node, same store, same peer address, same handler
+				if node == nil || !chanDone(runDone) {
+					panic(harnessErr("restart while the node runs"))
+				}
+				node = newNode()
+				runDone = make(chan struct{})
+				stopDone = nil
+				atomic.StoreInt64(&callsAtStop, -1)
+				rd := runDone
+				n := node
+				go func() {
+					n.Run(ctx)
+					close(rd)
+				}()
+				return Obs{OK}
 			case "peer_burst":
 				n := op.Int(0)
 				for i := int64(0); i < n; i++ {
-					peer.send(tu.TxRel(5000+burstSeq, []int64{950000 + burstSeq*10}, false))
+					peer.send(mkTx(5000+burstSeq, []int64{950000 + burstSeq*10}, false))
 					burstSeq++
 				}
 				// barrier: a pong means monitorIncoming has handled all of them (it is not blocked)
@@ -715,7 +868,9 @@ func runShutdown(c *Case) ([]Obs, any) {
 				ids := func(n *spynode.Node) []int64 {
 					var r []int64
 					for _, u := range n.VerifTxs().VerifUnconfirmed() {
+						umu.Lock()
 						r = append(r, tu.ID(&u.TxID)*4+b2i(u.Safe)*2+b2i(u.Unsafe))
+						umu.Unlock()
 					}
 					sort.Slice(r, func(i, j int) bool { return r[i] < r[j] })
 					return r
